@@ -144,8 +144,11 @@ def c05(R):
         for test in ("max_diff", "span"):
             s = PI(Tab(ns, r, p, v0), gamma=g, epsilon=eps, verbose=0, max_batch_size=bs, convergence_test=test, max_eval_iter=5000)
             inp = desc(N, A, E, gamma=g, epsilon=eps, test=test, max_batch_size=bs, policy=pol, v0=v0, **tables(ns, r, p)); R.case((N, A, E, test, bs), {x: inp[x] for x in ("N", "A", "gamma", "test", "max_batch_size")})
-            one = np.asarray(s._calculate_policy_values(jnp.array(pol), jnp.array(v0))); ref = Qf(ns, r, p, g, v0)[np.arange(N), pol[:, 0]]
-            if one.shape != (N,) or not close(one, ref): R.fail("c05.policy_backup", "one evaluation sweep != one-step value under each state's own policy action", inp, one, ref)
+            ref = Qf(ns, r, p, g, v0)[np.arange(N), pol[:, 0]]
+            for bs2 in sorted({1, 2, 3, 4, N, N + 3}):          # every padding situation: several batches with a padded last one, single batch, exact fit
+                s2 = s if bs2 == bs else PI(Tab(ns, r, p, v0), gamma=g, epsilon=eps, verbose=0, max_batch_size=bs2, convergence_test=test, max_eval_iter=50)
+                one = np.asarray(s2._calculate_policy_values(jnp.array(pol), jnp.array(v0))); R.case((N, A, E, test, "backup", bs2), None)
+                if one.shape != (N,) or not close(one, ref): R.fail("c05.policy_backup", "one evaluation sweep != one-step value under each state's own policy action", dict(inp, max_batch_size=bs2), one, ref); break
             ev = np.asarray(s._evaluate_policy(jnp.array(pol), jnp.array(v0))); exact = policy_value(ns, r, p, g, pol[:, 0])
             if test == "max_diff" and np.abs(ev - exact).max() >= eps / g: R.fail("c05.evaluation_accuracy", "evaluation not within eps/gamma of the exact policy value", inp, float(np.abs(ev - exact).max()), eps / g)
             # n_changed counts states whose action VECTOR differs in any component: perturb only the second component of some rows
@@ -215,6 +218,16 @@ def c07(R):
                 hist = np.asarray(st.info.value_history); hi = int(st.info.history_index); prev = hist[(hi + 1) % (P + 1)]
                 gstar = optimal_gain_lp(ns, r, p); comp = (V - prev) / P
                 if np.abs(comp - gstar).max() > eps / P * (1 + 1e-6) + 1e-9: R.fail("c07.gain_bracket", "(V_n - V_(n-P))/P not within eps/P of the optimal gain", inp, comp, gstar)
+        # the first iteration at which the test may fire (n == period) reads the slot holding the INITIAL values: tolerance just above the true measure there
+        for P, g in [(2, 1.0), (3, 0.9)]:
+            Vs = [np.array(v0, dtype=float)]
+            for n in range(1, P + 1): Vs.append(bellman(ns, r, p, g, Vs[-1]))
+            mP = span(Vs[P] - Vs[0]) if g == 1.0 else span(sum((Vs[j] - Vs[j - 1]) / g ** (j - 1) for j in range(1, P + 1)))
+            eps = mP * 1.05 + 1e-9; s = PVI(Tab(ns, r, p, v0), period=P, gamma=g, epsilon=eps, verbose=0, clear_value_history_on_convergence=False)
+            inp = desc(N, A, E, period=P, gamma=g, epsilon=eps, v0=v0, note="tolerance 5% above the documented measure at n == period", **tables(ns, r, p)); R.case((N, A, E, P, g, "at_period"), None)
+            if not close(np.asarray(s.value_history)[0], v0): R.fail("c07.history_slot0_is_initial_values", "ring buffer slot 0 does not hold the initial values after construction", inp, np.asarray(s.value_history)[0], v0)
+            st = s.solve(40); it, V, ex = reference_run("pvi", ns, r, p, g, eps, v0, 40, P)
+            if int(st.info.iteration) != it: R.fail("c07.stop_at_first_full_period", "stop decision at n == period differs from the documented measure (V_n - V_(n-period) with V_0 the initial values)", inp, int(st.info.iteration), it)
     # periodic chain with period 2 (plain VI oscillates): deterministic cycle of length 2 with different rewards
     ns = np.array([[[1]], [[0]]]); r = np.array([[[1.0]], [[3.0]]]); p = np.ones((2, 1, 1))
     st = PVI(Tab(ns, r, p), period=2, gamma=1.0, epsilon=1e-3, verbose=0, clear_value_history_on_convergence=False).solve(50); R.case(("cycle2",), {"mdp": "2-cycle rewards 1,3"})
